@@ -78,9 +78,9 @@ def run_text_shard(sh, res):
     for has_header in (False, True):
         for comment in (None, '#'):
             for n in range(sh['minlen'], sh['maxlen'] + 1):
-                for tup in itertools.product(syms, repeat=n - 1 if sh['first'] is not None and n > 0 else n):
+                for tup in itertools.product(syms, repeat=max(0, n - len(sh['first'])) if sh['first'] is not None else n):
                     if sh['first'] is not None:
-                        if n == 0:
+                        if n < len(sh['first']):
                             continue
                         text = sh['first'] + ''.join(tup)
                     else:
